@@ -119,19 +119,20 @@ PROPS = {
     ),
     "C16": dict(
         functions=[SP + "ShuffleContinuumSampler.sample_from_continuum", SP + "ShuffleContinuumSampler._remove_pivot_segment",
-                   SP + "AbstractContinuumSampler._has_been_init", CT + "Continuum.avg_length_unit",
+                   SP + "AbstractContinuumSampler._has_been_init", CT + "Continuum.avg_length_unit", SP + "ShuffleContinuumSampler._random_from_segments",
                    SP + "AbstractContinuumSampler.init_sampling#given", SP + "AbstractContinuumSampler.init_sampling#default",
                    SP + "ShuffleContinuumSampler.init_sampling#given", SP + "ShuffleContinuumSampler.init_sampling#default"] + [CT + "Continuum." + m for m in (
             "copy_flush", "add", "add_annotator", "iter_annotator", "bounds", "__bool__")] + [CT + "Unit.__lt__"],
         oracles=[SP + "ShuffleContinuumSampler.sample_from_continuum"],
         bounded=[dict(oracle=SP + "ShuffleContinuumSampler.sample_from_continuum",
-                      what="_random_from_segments is ASSUMED (RNG model), and the "
+                      what="_random_from_segments is proved over the RNG model (the weights are a probability vector, so the ValueError fallback "
+                           "`return 1` is dead code: an obligation), and the "
                            "integer-pivot separation is a known finding: seeded draws from random grid continua (2..5 annotators, ground-truth "
                            "subsets, both pivot types, non-zero lower bounds, integer timestamps) with the pivots recorded from the harness: "
                            "every sampled annotator is the wrapped translation of one ground-truth annotator by its pivot, pivots within bounds, "
                            "whole numbers in int mode, pairwise >= avg unit length / 2 apart; reference unchanged"),
                  dict(oracle=SP + "ShuffleContinuumSampler._random_from_segments#assumed-contract",
-                      what="the ASSUMED contract clause by clause on the real code: _random_from_segments on random lists of positive-length "
+                      what="the contract of _random_from_segments (now proved over the RNG model) clause by clause on the real code, i.e. an exercise of that model: random lists of positive-length "
                            "segments (incl. very short ones and integer timestamps), both pivot types: returns, float pivot within a segment, "
                            "int pivot a whole number; avg_length_unit > 0")],
         design_ref="DESIGN.md section 4 C16, appendix A.5",
@@ -142,8 +143,8 @@ PROPS = {
                      "enough'); integer pivots: whole numbers proved, separation is the known finding C16-int-pivot-separation",
                      "termination of the retry loop (probabilistic)"],
         trusted=S_COMMON + ["model: python lists (append / pop)", "model: pyannote Segment",
-                            "model: random generators (support only); _random_from_segments assumed to return a point of one of the "
-                            "given segments (float) / a whole number (int)",
+                            "model: random generators (support only; np.random.choice(list, p=float array) raises ValueError unless the weights are "
+                            "a probability vector)",
                             "pt(x) = True: a trigger predicate for clauses quantified over real points"],
     ),
     "C03": dict(
